@@ -71,6 +71,7 @@ type Exec struct {
 	assumptions map[string]bool // engine-level assumptions used (reported)
 	fuel        int
 	hiddenStack []string
+	ordStack    []int
 	lastSpawn   map[string]Value
 	lastWrite   *SliceV
 	readSpecs   []readSpecR
@@ -214,7 +215,7 @@ func (x *Exec) readElem(st *State, s SliceV, idx Term) Value {
 			} else {
 				h = x.heap(st, key, es)
 			}
-			f[fd.Name()] = x.wrapScalar(st, Select(Select(h, s.Ref), Add(s.Off, idx)), fd.Type(), s.Pre)
+			f[fd.Name()] = x.wrapScalar(st, Select(Select(h, s.Ref), idxAt(s.Off, idx)), fd.Type(), s.Pre)
 		}
 		return StructV{Typ: s.Elem, F: f}
 	}
@@ -225,8 +226,29 @@ func (x *Exec) readElem(st *State, s SliceV, idx Term) Value {
 	} else {
 		h = x.heap(st, key, es)
 	}
-	return x.wrapScalar(st, Select(Select(h, s.Ref), Add(s.Off, idx)), s.Elem, s.Pre)
+	return x.wrapScalar(st, Select(Select(h, s.Ref), idxAt(s.Off, idx)), s.Elem, s.Pre)
 }
+
+// idxAt is off+idx; with a symbolic offset and index it is wrapped in the uninterpreted `ix`
+// (axiom: ix(o,i) = o+i) so that quantifier patterns over slice elements contain no arithmetic
+// (E-matching on `+` is unreliable).
+func idxAt(off, idx Term) Term {
+	if _, ok := intLit(off); ok {
+		return Add(off, idx)
+	}
+	if _, ok := intLit(idx); ok {
+		return Add(off, idx)
+	}
+	if useIx {
+		return App(SInt, "ix", off, idx)
+	}
+	return Add(off, idx)
+}
+
+// useIx: wrap symbolic-offset indices in the uninterpreted ix(o,i). Off by default: callee results whose
+// contract ensures off(r) == 0 get a literal zero offset instead (see zeroOffsetResults), which removes the
+// arithmetic from the patterns that matter here.
+var useIx = true
 
 func (x *Exec) toHeapTerm(v Value) Term {
 	switch v := v.(type) {
@@ -256,13 +278,13 @@ func (x *Exec) writeElem(st *State, s SliceV, idx Term, v Value) {
 			key := "st_" + typeName(s.Elem) + "." + fd.Name()
 			es := scalarSort(fd.Type())
 			h := x.heap(st, key, es)
-			st.heaps[key] = x.nameHeap(st, key, Store(h, s.Ref, Store(Select(h, s.Ref), Add(s.Off, idx), x.toHeapTerm(sv.F[fd.Name()]))))
+			st.heaps[key] = x.nameHeap(st, key, Store(h, s.Ref, Store(Select(h, s.Ref), idxAt(s.Off, idx), x.toHeapTerm(sv.F[fd.Name()]))))
 		}
 		return
 	}
 	key, es := heapKey(s.Elem)
 	h := x.heap(st, key, es)
-	st.heaps[key] = x.nameHeap(st, key, Store(h, s.Ref, Store(Select(h, s.Ref), Add(s.Off, idx), x.toHeapTerm(v))))
+	st.heaps[key] = x.nameHeap(st, key, Store(h, s.Ref, Store(Select(h, s.Ref), idxAt(s.Off, idx), x.toHeapTerm(v))))
 }
 
 // seqOf gives the spec-level sequence denoted by a slice (its window, re-based at 0).
